@@ -79,7 +79,7 @@ impl Property for C09 {
         vec!["crash model of the property: bytes not covered by a successful fsync of their file are lost; file creation/deletion is durable at once", "a failed fsync makes nothing durable"]
     }
     fn required_probes(&self) -> Vec<&'static str> { vec!["batch_straddled_rotation", "crash_image_with_unsynced_bytes"] }
-    fn runs(&self, tier: Tier) -> u64 { match tier { Tier::Quick => 300, Tier::Thorough => 6000 } }
+    fn runs(&self, tier: Tier) -> u64 { match tier { Tier::Quick => 5000, Tier::Thorough => 100000 } }
 
     fn derive(&self, tape: &[u64], rep: &RunReport, tier: Tier) -> Vec<Vec<u64>> {
         // Only pilots that were fault-free are expanded.
